@@ -10,8 +10,9 @@ FLAVOURS = ("san",)
 RULE = ("dround [-n] SPEC over stdin batches of 60 values per generated spec. Specs: field values "
         "(weekday names, month names, +-Nd day-of-month, +-Nh, +-Nm, +-Ns) and co-classes (/+-Ns|m|h "
         "with N dividing 60/60/24, /+-1d, /+-Nmo with N|12, /+-1q, /+-Ny with N|1000), each with and "
-        "without --next; inputs: dates (ymd, ymcw, ywd for weekday/month targets), date-times, "
-        "times. Oracle: brute-force search on the reference axis (step the next coarser unit in "
+        "without --next; inputs: dates (ymd, ymcw, ywd, Lilian / Matlab day numbers for weekday targets), "
+        "date-times, times, epoch seconds (-i %s, co-classes of seconds / minutes / hours, incl. values "
+        "beyond 2^32). Oracle: brute-force search on the reference axis (step the next coarser unit in "
         "the requested direction until the field matches, finer fields kept, non-existent "
         "day-of-month replaced by the month's last day; co-class: nearest multiple of N units "
         "from the unit's origin at or beyond the input, strictly beyond with --next, finer fields "
@@ -25,7 +26,7 @@ REP = {"ymd": R.f_ymd, "ymcw": R.f_ymcw, "ywd": lambda n: "%04d-W%02d-%d" % R.is
 
 
 def plan(ctx):
-    return [("rounds", {"shard": i, "nshards": 16}) for i in range(16)]
+    return [("rounds", {"shard": i, "nshards": 16}) for i in range(16)] + [("dayfrac", {"shard": i, "nshards": 2}) for i in range(2)]
 
 
 # ---------------------------------------------------------------- oracle
@@ -134,7 +135,7 @@ def gen_spec(rnd):
     pre = "-" if sign < 0 else ""
     if r < 18:
         w = rnd.randrange(1, 8)
-        return {"txt": pre + R.WD_ABBR[w - 1], "f": ("field", "wday", w, sign), "inputs": ("d", "dt", "d:ymcw", "d:ywd")}
+        return {"txt": pre + R.WD_ABBR[w - 1], "f": ("field", "wday", w, sign), "inputs": ("d", "dt", "d:ymcw", "d:ywd", "d:ldn", "d:mdn")}
     if r < 32:
         m = rnd.randrange(1, 13)
         return {"txt": pre + R.MON_ABBR[m - 1], "f": ("field", "mon", m, sign), "inputs": ("d", "dt")}
@@ -153,7 +154,7 @@ def gen_spec(rnd):
     if r < 86:
         unit = rnd.choice(("s", "m", "h"))
         N = rnd.choice({"s": (1, 2, 5, 10, 15, 20, 30), "m": (1, 2, 5, 10, 15, 20, 30), "h": (1, 2, 3, 4, 6, 8, 12)}[unit])
-        return {"txt": "/%s%d%s" % (pre, N, unit), "f": ("cocl", unit, N, sign), "inputs": ("dt", "t")}
+        return {"txt": "/%s%d%s" % (pre, N, unit), "f": ("cocl", unit, N, sign), "inputs": ("dt", "t", "sx")}
     if r < 90:
         return {"txt": "/%s1d" % pre, "f": ("cocl", "d", 1, sign), "inputs": ("dt",)}
     unit = rnd.choice(("mo", "mo", "q", "y"))
@@ -168,9 +169,19 @@ def expected(spec, nextp, n, s, timeonly=False):
     return round_cocl(f[1], f[2], f[3], nextp, n, s)
 
 
+IARGS = {"d:ldn": ["-i", "ldn"], "d:mdn": ["-i", "mdn"], "sx": ["-i", "%s", "-f", "%s"]}
+
+
 def text(ik, n, s):
     if ik == "t":
         return R.hms(s)
+    if ik == "sx":
+        # epoch seconds in, epoch seconds out
+        return "%d" % ((n - R.UNIX0) * 86400 + s)
+    if ik == "d:ldn":
+        return "%d" % R.ldn(n)
+    if ik == "d:mdn":
+        return "%d" % R.mdn(n)
     rep = ik.split(":")[1] if ":" in ik else "ymd"
     d = REP[rep](n)
     return d + ("T" + R.hms(s) if ik.startswith("dt") else "")
@@ -190,7 +201,11 @@ def rounds(ctx, shard, nshards):
             n = rnd.choice(B) if rnd.random() < 0.6 else rnd.randrange(R.NMIN + 2000, R.NMAX - 2000)
             n = max(R.NMIN + 2000, min(R.NMAX - 2000, n))
             s = None
-            if ik.startswith("dt") or ik == "t":
+            if ik in ("d:ldn", "d:mdn"):
+                n = min(n, 910675 - 400)      # day numbers in the last 606 days: C01's recorded finding
+            if ik == "sx":
+                n = max(n, R.UNIX0 + 2)
+            if ik.startswith("dt") or ik in ("t", "sx"):
                 s = rnd.choice((0, 0, 1, 59, 60, 3599, 3600, 43200, 86340, 86399, rnd.randrange(86400)))
             if ik == "t":
                 n = 400000
@@ -206,7 +221,7 @@ def rounds(ctx, shard, nshards):
                     continue
             vals.append((n, s))
         ins = [text(ik, n, s) for n, s in vals]
-        args = (["-n"] if nextp else []) + ["--", spec["txt"]]
+        args = IARGS.get(ik, []) + (["-n"] if nextp else []) + ["--", spec["txt"]]
         tag = "%s:%s%s:%s%s" % (spec["f"][0], spec["f"][1], "" if spec["f"][0] == "field" else "", ik, ":next" if nextp else "")
         if spec["f"][3] < 0:
             tag += ":down"
@@ -238,11 +253,11 @@ def rounds(ctx, shard, nshards):
         res = [o for o, x in zip(out, exps) if o and x is not None and o == x]
         if res:
             try:
-                out2, _ = run_lines(ctx.build, "dround", ["--", spec["txt"]], res)
+                out2, _ = run_lines(ctx.build, "dround", IARGS.get(ik, []) + ["--", spec["txt"]], res)
                 for a, b in zip(res, out2):
                     sub.evaluations += 1
                     if a != b:
-                        V.add("idem:" + tag, {"args": ["--", spec["txt"]], "in": a, "exp": a, "kind": "round"},
+                        V.add("idem:" + tag, {"args": IARGS.get(ik, []) + ["--", spec["txt"]], "in": a, "exp": a, "kind": "round"},
                               expected=a, actual=b)
             except BatchError as e:
                 V.add("batch:idem:" + tag, {"args": args, "ins": res[:4], "kind": "batch"}, detail=str(e),
@@ -252,7 +267,53 @@ def rounds(ctx, shard, nshards):
     return sub
 
 
+def dayfrac(ctx, shard, nshards):
+    """day numbers with a fraction of the day (-i mdn / -i jdn) are date-times: rounding them gives what
+    rounding the same instant written as ISO text gives (the ISO route is what `rounds` asserts)"""
+    sub = Sub("c16.dayfrac")
+    V = Viol(sub, "C16")
+    rnd = random.Random(ctx.sub_seed("c16f", shard))
+    B = boundary()
+    for it in range(160 if not ctx.thorough else 4000):
+        spec = gen_spec(rnd)
+        # time targets only: a day number has no month or day-of-month to round to (such specs are
+        # returned unchanged or refused, as for epoch seconds); the carry across midnight is the point
+        if "dt" not in spec["inputs"] or spec["f"][1] not in ("hour", "min", "sec", "s", "m", "h"):
+            continue
+        nextp = rnd.random() < 0.4
+        cal = "mdn"      # Julian day numbers are read as dates (the fraction is dropped), Matlab ones as date-times
+        xs = []
+        for _ in range(40):
+            n = rnd.choice(B) if rnd.random() < 0.5 else rnd.randrange(R.NMIN + 2000, 910675 - 2000)
+            n = max(R.NMIN + 2000, min(910675 - 2000, n))
+            fr = rnd.choice((0, 250000, 500000, 750000, 999000, 999999, 1, 41667, rnd.randrange(1000000)))
+            base = R.mdn(n) if cal == "mdn" else int(R.jdn(n) - 0.5)
+            xs.append("%d.%06d" % (base, fr))
+        try:
+            iso, _ = run_lines(ctx.build, "dconv", ["-i", cal, "-f", "%FT%T"], xs)
+            args = (["-n"] if nextp else []) + ["--", spec["txt"]]
+            ref, _ = run_lines(ctx.build, "dround", args, iso)
+            got, _ = run_lines(ctx.build, "dround", ["-i", cal, "-f", "%FT%T"] + args, xs)
+        except BatchError as e:
+            V.add("batch:dayfrac", {"kind": "batch", "args": [spec["txt"]], "ins": xs[:4]}, detail=str(e), actual=e.result.brief())
+            continue
+        for x, i, r, g in zip(xs, iso, ref, got):
+            sub.evaluations += 1
+            if i and r:
+                sub.nontrivial_count += 1
+            if i and r and g != r:
+                V.add("dayfrac:%s:%s%s" % (cal, spec["f"][1], ":next" if nextp else ""),
+                      {"cal": cal, "x": x, "iso": i, "args": args, "kind": "dayfrac"}, expected=r, actual=g, weight=len(x))
+    sub.sample({"cmd": "dround -i mdn -f %FT%T 735874.999 /1h", "same_as": "dround 2014-10-02T23:58:33 /1h"})
+    return sub
+
+
 def replay(ctx, subname, case):
+    if case["kind"] == "dayfrac":
+        iso, _ = run_lines(ctx.build, "dconv", ["-i", case["cal"], "-f", "%FT%T"], [case["x"]])
+        ref, _ = run_lines(ctx.build, "dround", case["args"], iso)
+        got, _ = run_lines(ctx.build, "dround", ["-i", case["cal"], "-f", "%FT%T"] + case["args"], [case["x"]])
+        return None if got == ref else {"x": case["x"], "iso": iso[0], "expected": ref[0], "actual": got[0]}
     if case["kind"] == "batch":
         try:
             run_lines(ctx.build, "dround", case["args"], case["ins"])
